@@ -295,6 +295,8 @@ def scene_sampling(chk, MX, n):
             wind_tab = [[h, rng.uniform(-10, 10), rng.uniform(-10, 10), rng.uniform(-2, 2)] for h in hs]
             sd["scene"]["atmosphere"]["V_wind"] = copy.deepcopy(wind_tab)
         ac = gen.simple_wing_aircraft(N=4, b=rng.uniform(3, 8))
+        if i % 2 == 1:
+            ac["CG"] = [round(rng.uniform(-2.0, 0.5), 2), 0.0, round(rng.uniform(-0.5, 0.8), 2)]      # the atmosphere is sampled at the control points, wherever the CG is
         alt = rng.uniform(100.0, zmax * 0.9)
         st = {"velocity": rng.uniform(50, 120), "alpha": rng.uniform(-3, 5), "position": [rng.uniform(-100, 100), rng.uniform(-100, 100), -alt],
               "orientation": [rng.uniform(-80, 80), rng.uniform(-30, 30), rng.uniform(-170, 170)]}
@@ -304,8 +306,13 @@ def scene_sampling(chk, MX, n):
         except Exception as e:
             chk.violation("sampling:raises", dict(kind="scene-sampling", scene=sd, state=st, error=repr(e)))
             return
-        PC = np.array(sc._PC)
+        # where the control points are, from the aircraft's own body-frame array, its position and attitude (independent rotation)
+        a_ = sc._airplanes["a"]
+        PC = np.array([np.array(a_.p_bar, dtype=float) + np.array(api.quat_inv_rot(a_.q, pc_)) for pc_ in np.array(a_.PC, dtype=float)])
         hcp = -PC[:, 2]
+        if not np.allclose(PC, np.array(sc._PC), rtol=0, atol=1e-9 * max(1.0, float(np.max(np.abs(PC))))):
+            chk.violation("sampling:control-point-positions", dict(kind="scene-sampling", scene=sd, state=st, CG=ac["CG"], scene_PC=np.array(sc._PC), expected=PC))
+            return
         if kind == "standard":
             sa = StandardAtmosphere(units)
             exp_rho = np.array([sa.rho(float(h)) for h in hcp])
@@ -343,6 +350,21 @@ def scene_sampling(chk, MX, n):
                 chk.violation("sampling:coefficient-reference", dict(kind="scene-sampling", scene=sd, state=st, key=ck, coefficient=cval,
                                                                      force=fval, q_origin_S=qS))
                 return
+        # the section induced-drag coefficients of distributions() are referred to the same (origin) density and airspeed: per segment they add
+        # up, weighted with the section areas, to the segment's inviscid CD
+        try:
+            dist_ = sc.distributions()["a"]
+            seg_FM = sc.solve_forces(report_by_segment=True, non_dimensional=True, dimensional=False, verbose=False)["a"]["inviscid"]["CD"]
+        except Exception as e:
+            chk.count("cdi_error=" + type(e).__name__)
+            dist_ = None
+        if dist_ is not None:
+            for sn, dd in dist_.items():
+                lhs = float(np.sum(np.array(dd["CD_i"], dtype=float) * np.array(dd["area"], dtype=float))) / a.S_w
+                rhs = float(seg_FM[sn])
+                if not abs(lhs - rhs) <= 2e-6 * max(abs(rhs), abs(FM["a"]["total"]["CD"])) + 1e-12:
+                    chk.violation("sampling:CD_i-reference", dict(kind="scene-sampling", scene=sd, state=st, segment=sn, sum_CDi_dS_over_S=lhs, inviscid_CD_of_segment=rhs))
+                    return
         # the same aircraft moved (not turned) to another altitude samples the atmosphere of the new place
         alt2 = rng.uniform(100.0, zmax * 0.9)
         st2 = dict(st, position=[st["position"][0] + 35.0, st["position"][1] - 20.0, -alt2])
